@@ -134,9 +134,26 @@ package graphql
 //@   ensures calls("completePlannedListValue") == 1 && typeis(returnType, "*graphql.List") ==> result0 == lastresult("completePlannedListValue")
 //@   ensures calls("completeLeafValue") == 1 && (typeis(returnType, "*graphql.Scalar") || typeis(returnType, "*graphql.Enum")) ==> result0 == lastresult("completeLeafValue")
 //@   ensures calls("completePlannedObjectValue") == 1 && typeis(returnType, "*graphql.Object") ==> result0 == lastresult("completePlannedObjectValue")
+// (verified, was an assumed frame) the completion of a deferred value: what the thunk yields is completed as the
+// declared type; a failure (the thunk's error, a panic, a failing completion) in a NULLABLE position is recorded
+// and the position becomes null; in a non-null position it propagates.
 //@ func completePlannedThunkValueCatchingError
-//@   trusted
+//@   props C04 C01 C20
+//@   nosafety
+//@   opt maypanic=true
+//@   opt callback.propertyFn=maypanic
+//@   requires eCtx != nil && fp != nil
 //@   assigns class:executionContext.Errors, class:executionContext.Context, class:FormattedError, class:M|*graphql.Object|*graphql.selectionPlan, class:graphql.selectionPlan, class:graphql.fieldPlan, class:M|string|int, class:M|string|bool, class:E|*graphql.fieldPlan, class:E|*ast.Field, class:M|string|interface, class:E|interface, class:E|string, class:graphql.fragmentGate, class:graphql.fragmentTrace, class:E|graphql.collectStep, class:F|[]graphql.collectStep, class:M|string|*graphql.fragmentTrace, class:E|graphql.fragmentSpreadEdge, class:M|string|*graphql.fragmentGate, class:E|func, class:graphql.Plan.expanding, class:M|*ast.Field|bool, class:M|*graphql.fieldPlan|bool, class:M|*graphql.fragmentTrace|bool
+//@   panics typeis(returnType, "*graphql.NonNull")
+//@   at call completePlannedValue: assert arg0 == eCtx && arg2 == fp && arg4 == path && calls("propertyFn") == 1 && arg5 == lastresult("propertyFn")
+//@   at call completePlannedValue#2: assert arg1 == old(returnType)
+// F55: the deferred completion runs when the enclosing fields have long returned: only the top-level recover is
+// below it, so a failure it lets out nulls the WHOLE response instead of the nearest nullable ancestor
+//@ func completePlannedValue$1
+//@   props C04 C01
+//@   nosafety
+//@   requires eCtx != nil && fp != nil
+//@   nopanic
 
 //@ func resolvePlannedField
 //@   props C04 C20 C06 C17 C18 C05
